@@ -303,10 +303,12 @@ func (m *Monitors) c14(st *Step) []Finding {
 		}
 	}
 	// limits: growth beyond a limit that was in force before the entry
-	if lim := st.Before.Config.MaxSessions; lim > 0 && len(v.Sessions) > len(st.Before.Sessions) && uint64(len(v.Sessions)) > lim {
+	// (the limits of the configuration entry that was applied last, as recorded then: a
+	// reloaded state that claims other limits does not change what is in force)
+	if lim := m.credentials(st.Before).MaxSessions; lim > 0 && len(v.Sessions) > len(st.Before.Sessions) && uint64(len(v.Sessions)) > lim {
 		add("limit:sessions", fmt.Sprintf("%d sessions with MaxSessions=%d after %q", len(v.Sessions), lim, st.Entry.Data))
 	}
-	if lim := st.Before.Config.MaxChannels; lim > 0 && len(v.Channels) > len(st.Before.Channels) && uint64(len(v.Channels)) > lim {
+	if lim := m.credentials(st.Before).MaxChannels; lim > 0 && len(v.Channels) > len(st.Before.Channels) && uint64(len(v.Channels)) > lim {
 		add("limit:channels", fmt.Sprintf("%d channels with MaxChannels=%d after %.60q (role %s)", len(v.Channels), lim, st.Entry.Data, st.Entry.Role))
 	}
 	m.Stats["c14.walks"]++
@@ -354,6 +356,24 @@ func (m *Monitors) c17(st *Step) []Finding {
 				if mb := c.Member(Fold(s.Nick)); mb != nil {
 					if o, ok := st.After.NickOwner(Fold(s.Nick)); !ok || o == s.Id {
 						add("end:still-member", fmt.Sprintf("ended session %v (%q) still listed in %q", s.Id, s.Nick, c.Key))
+					}
+				}
+			}
+		}
+	}
+	// a services link's ":Nick QUIT" ends the pseudo-client of that link which owns the
+	// nickname (nicknames compare case-insensitively, as everywhere in IRC)
+	if e := &st.Entry; e.Type == int64(robust.IRCFromClient) && strings.HasPrefix(e.Data, ":") {
+		if A := actorOf(st); A != nil && A.Server {
+			if cmd, _ := SplitInput(e.Data); cmd == "QUIT" {
+				name := strings.TrimPrefix(strings.SplitN(e.Data, " ", 2)[0], ":")
+				for i := range st.Before.Sessions {
+					s := &st.Before.Sessions[i]
+					if s.Id.Id == A.Id.Id && s.Id.Reply != 0 && Fold(s.Nick) == Fold(name) {
+						m.Stats["c17.pseudo-client-quits"]++
+						if _, still := after[s.Id]; still {
+							add("end:pseudo-client-quit-ignored", fmt.Sprintf("services sent %.60q; pseudo-client %v (%q) still exists, its nickname stays taken", e.Data, s.Id, s.Nick))
+						}
 					}
 				}
 			}
